@@ -140,7 +140,7 @@ def main(ck, tier, w, pid='C07'):
         r0, ntx, nblk, big = j
         hist = utxohist.random_history(r0, ntx, nblk, big_out_every=97 if big else 0)
         try:
-            blocks, txids = utxohist.concretise(hist, unit=1)
+            blocks, txids = utxohist.concretise(hist, unit=utxohist.U * 4001)
         except utxohist.Cyclic:
             return j, None
         d = utxohist.write_chain(w, blocks, nfiles=2)
